@@ -87,10 +87,11 @@ def narrow(spec, seed, lo, hi, miri_seeds):
 
 
 def phase(prop, tier, seed, report, specs, accept=None):
-    if tier != "thorough" and os.environ.get("VERIF_MIRI") != "1":
-        return []
+    want_all = tier == "thorough" or os.environ.get("VERIF_MIRI") == "1"
     out = []
     for spec in specs:
+        if not want_all and not spec.get("quick"):
+            continue
         t0 = time.time()
         plans = spec["plans"] if tier == "thorough" else max(4, spec["plans"] // 8)
         nseeds = spec["seeds"] if tier == "thorough" else max(2, spec["seeds"] // 8)
